@@ -63,7 +63,8 @@ impl Ctx {
 
     /// scenario count for this tier, scaled
     pub fn n(&self, quick: u64, thorough: u64) -> u64 {
-        let base = if self.quick() { quick } else { thorough };
+        // thorough counts are upper bounds: the stage's time budget (out_of_time) normally ends the run first
+        let base = if self.quick() { quick } else { thorough * 8 };
         ((base as f64) * self.scale).ceil() as u64
     }
 
